@@ -235,6 +235,24 @@ def warmup():
         fn.__name__ = name
         fn.__doc__ = MON.orig[name].__doc__
         setattr(cls, name, fn)
+    # bootstrap resampling observed at the boundary of the Database methods that draw the resamples: from the first draw
+    # to the end of the estimate() call the engine works on resampled data, whatever the values returned look like
+    # (a resample of a 2-6 row table equals the table itself with sizeable probability)
+    import biogeme.database as bdb
+
+    for mname in ('sample_with_replacement', 'sample_individual_map_with_replacement'):
+        if hasattr(bdb.Database, mname):
+            def make(orig_m):
+                def wrapped(self, *a, **kw):
+                    S = MON.ctx
+                    if MON.mode != 'off' and S is not None and (S.target is None or self is getattr(S.target, 'database', None)):
+                        S.resampling = True
+                        S.rec.c('bootstrap_resamples_drawn')
+                    return orig_m(self, *a, **kw)
+                wrapped.__name__ = orig_m.__name__
+                wrapped.__doc__ = orig_m.__doc__
+                return wrapped
+            setattr(bdb.Database, mname, make(getattr(bdb.Database, mname)))
     # snapshot tool: at every LINE event of the module under test, while an observed evaluation runs,
     # record what is on disk = exactly what a process stopped at this statement boundary leaves behind
     # (os._exit / SIGKILL flush nothing). Cross-validated against real kills in the crash cases.
@@ -332,6 +350,7 @@ class Session:
         self.max_file_size = 0
         self.viol_mechs = set()
         self.target = None  # when set: only this BIOGEME object is observed
+        self.resampling = False  # a bootstrap resample has been drawn since estimate() was entered
         self.allow_foreign = False  # evaluations on other data than the estimation data are expected (bootstrap)
         self.stop_reported = set()
         self.witness_base = {'model_name': spec['model_name'], 'parameters': [p['name'][:60] for p in spec['params']], 'label': label}
@@ -363,6 +382,7 @@ class Session:
         self.estimates += 1
         self.first_eval = None
         self.optimize_start = None
+        self.resampling = False
         if MON.mode == 'observe':
             self.new_scope()
 
@@ -445,9 +465,14 @@ class Session:
                 self.rec.ev()
                 self.rec.c('likelihood_compared_with_reference')
                 mismatch = not close(f, ref, 1e-9, 1e-9)
+                if self.resampling:
+                    mismatch = False  # resampled data in use: the reference on the estimation data does not apply
                 if mismatch and self.allow_foreign:
                     foreign = True
-                    self.rec.c('evaluations_on_resampled_data')
+        if self.resampling:
+            foreign = True
+        if foreign:
+            self.rec.c('evaluations_on_resampled_data')
         viol, info = self.scope.step(xd, f if f is not None else float('nan'), grad_finite, pre, post, foreign=foreign)
         entry = {'k': k, 'x': {n[:40]: v.hex() for n, v in xd.items()} if len(xd) <= 6 else f'{len(xd)} values', 'f': f,
                  'grad_finite': grad_finite, 'kind': info['kind'], 'file': info['file'], 'xd': xd, 'pre': pre, 'post': post,
